@@ -16,4 +16,19 @@ for n in "${names[@]}"; do
   echo "| $n | $prop | $v | $sig | $wall |" >> "$out.tmp"
   echo "$n $prop $v"
 done
-mv "$out.tmp" "$out"
+# rows of changes that were not re-run are kept from the previous matrix
+python3 - "$out" "$out.tmp" <<'PY'
+import sys,re
+old,new=sys.argv[1],sys.argv[2]
+rows={}
+def read(p):
+    try: ls=open(p).read().split("\n")
+    except FileNotFoundError: return
+    for l in ls:
+        m=re.match(r"\| (C\d+-\w+) \|",l)
+        if m: rows[m.group(1)]=l
+read(old); read(new)
+head=[l for l in open(new).read().split("\n") if not re.match(r"\| C\d+-",l) and l.strip()]
+open(old,"w").write("\n".join(head[:1]+[""]+head[1:]+[rows[k] for k in sorted(rows)])+"\n")
+PY
+rm -f "$out.tmp"
